@@ -33,7 +33,8 @@ META = {
                    "getAllDependencies, the ALAP successor enumeration, the attribute definition table (inheritedFromParent) "
                    "and the parser's depends/precedes resolution."
                    " Also: must-fact form of the forward max-accumulator (the fact must name the value written), readiness facts on the back edges of the predecessor loop, binding of defaulted scenario parameters, gap unit tables (elapsed vs working time, slots of the project resolution), milestone date at the bound, container-aware successor selection in backward mode, and a census for task identity by local id."
-                   " Round 3: getattr form of the local-id rule, duration-unit cross-check of all duration parsers (regex syntax trees), process-state rule.",
+                   " Round 3: getattr form of the local-id rule, duration-unit cross-check of all duration parsers (regex syntax trees), process-state rule."
+                   " Round 4: inherited edges keep the identity of the predecessor (no container reaches deepcopy whole), accumulators of the roll-up a dependant reads, getAllDependencies drops nothing, readiness by leaves accepted under the roll-up rules.",
     "assumptions": ["on-start edges in backward mode and mixed-mode chains are outside the property's claim"],
 }
 
